@@ -821,7 +821,12 @@ impl<'a> Ref<'a> {
                     false
                 }
             },
-            Stmt::RawXml(_) => true,
+            Stmt::RawXml(_)
+            | Stmt::SendX(_)
+            | Stmt::CancelX { .. }
+            | Stmt::ScriptText(_)
+            | Stmt::AssignText(..)
+            | Stmt::LogL(..) => true,
         }
     }
 
